@@ -838,11 +838,120 @@ def gen_sizes():
              ('dtcwt_prep_filt_mirrors', mirrors(_find_fn(dlow, 'prep_filt'), 'h'))]
     for name, val in flags:
         out.append('def %s : Bool := %s' % (name, 'true' if val else 'false'))
+    # --- module glue of the DWT classes (round 12): which Function each level calls with which arguments in which order, the order of
+    # the levels, the one-sample crops of the inverse loops, the dilation of the stationary transform, the axes the 2-D filters are
+    # reshaped onto
+    t2d = os.path.join(rt.REPO, 'pytorch_wavelets', 'dwt', 'transform2d.py'); t1d = os.path.join(rt.REPO, 'pytorch_wavelets', 'dwt', 'transform1d.py')
+
+    def method(path, cls, name):
+        tree = ast.parse(open(path).read())
+        for n in tree.body:
+            if isinstance(n, ast.ClassDef) and n.name == cls:
+                for b in n.body:
+                    if isinstance(b, ast.FunctionDef) and b.name == name:
+                        return b
+        raise TranslateError('%s.%s not found' % (cls, name))
+
+    def the_call(fn, attr_chain):
+        hits = [c for c in ast.walk(fn) if isinstance(c, ast.Call) and ast.unparse(c.func) == attr_chain]
+        if len(hits) != 1:
+            raise TranslateError('%s: expected exactly one call of %s, found %d' % (fn.name, attr_chain, len(hits)))
+        if hits[0].keywords:
+            raise TranslateError('%s: keyword arguments in the call of %s' % (fn.name, attr_chain))
+        return hits[0]
+
+    def strs(name, xs):
+        out.append('def %s : List String := [%s]' % (name, ', '.join('"%s"' % x for x in xs)))
+
+    def the_loop(fn):
+        loops = [n for n in ast.walk(fn) if isinstance(n, ast.For)]
+        if len(loops) != 1:
+            raise TranslateError('%s: expected exactly one level loop, found %d' % (fn.name, len(loops)))
+        return loops[0]
+
+    def crop_tests(fn, tag, big, small, axes):
+        """`if big.shape[a] > small.shape[a]: big = big[..., :-1 (, :)]` for each axis a (negative index)"""
+        ifs = [n for n in ast.walk(fn) if isinstance(n, ast.If) and isinstance(n.test, ast.Compare) and len(n.test.ops) == 1
+               and isinstance(n.test.left, ast.Subscript) and ast.unparse(n.test.left.value) == big + '.shape']
+        if len(ifs) != len(axes):
+            raise TranslateError('%s: expected %d crop tests on %s, found %d' % (fn.name, len(axes), big, len(ifs)))
+        for n, ax in zip(ifs, axes):
+            l, r = n.test.left, n.test.comparators[0]
+            if not (isinstance(n.test.ops[0], ast.Gt) and ast.unparse(l.slice) == str(ax) and ast.unparse(r) == '%s.shape[%d]' % (small, ax)):
+                raise TranslateError('%s: crop test %s' % (fn.name, ast.unparse(n.test)))
+            if len(n.body) != 1 or n.orelse or not (isinstance(n.body[0], ast.Assign) and ast.unparse(n.body[0].targets[0]) == big
+                                                     and isinstance(n.body[0].value, ast.Subscript) and ast.unparse(n.body[0].value.value) == big):
+                raise TranslateError('%s: crop statement %s' % (fn.name, ast.unparse(n)))
+            sl = n.body[0].value.slice
+            elts = list(sl.elts) if isinstance(sl, ast.Tuple) else [sl]
+            if not (isinstance(elts[0], ast.Constant) and elts[0].value is Ellipsis):
+                raise TranslateError('%s: crop does not start with an ellipsis' % fn.name)
+            rest = elts[1:]
+            pos = len(rest) + ax            # index of the cropped axis among the trailing slices
+            for k, e in enumerate(rest):
+                if not isinstance(e, ast.Slice) or e.lower is not None or e.step is not None:
+                    raise TranslateError('%s: crop slice %s' % (fn.name, ast.unparse(sl)))
+                if (k == pos) != (e.upper is not None):
+                    raise TranslateError('%s: the crop %s is not on axis %d' % (fn.name, ast.unparse(sl), ax))
+            tt = SizeTranslator(fn, {ast.unparse(l): 'l', ast.unparse(r): 'h'})
+            d('%s_crop_test_%s' % (tag, 'rows' if ax == -2 else 'cols'), ['l', 'h'], tt.expr(n.test), prop=True)
+            d('%s_crop_to_%s' % (tag, 'rows' if ax == -2 else 'cols'), [], tt.expr(rest[pos].upper))
+
+    f = method(t2d, 'DWTForward', 'forward')
+    strs('dwtfwd2_call_args', [ast.unparse(a) for a in the_call(f, 'lowlevel.AFB2D.apply').args])
+    lp = the_loop(f)
+    strs('dwtfwd2_loop', [ast.unparse(lp.target), ast.unparse(lp.iter)])
+    f = method(t2d, 'DWTInverse', 'forward')
+    strs('dwtinv2_call_args', [ast.unparse(a) for a in the_call(f, 'lowlevel.SFB2D.apply').args])
+    lp = the_loop(f)
+    strs('dwtinv2_loop', [ast.unparse(lp.target), ast.unparse(lp.iter)])
+    crop_tests(f, 'dwtinv2', 'll', 'h', [-2, -1])
+    f = method(t1d, 'DWT1DForward', 'forward')
+    strs('dwtfwd1_call_args', [ast.unparse(a) for a in the_call(f, 'lowlevel.AFB1D.apply').args])
+    lp = the_loop(f)
+    strs('dwtfwd1_loop', [ast.unparse(lp.target), ast.unparse(lp.iter)])
+    f = method(t1d, 'DWT1DInverse', 'forward')
+    strs('dwtinv1_call_args', [ast.unparse(a) for a in the_call(f, 'lowlevel.SFB1D.apply').args])
+    lp = the_loop(f)
+    strs('dwtinv1_loop', [ast.unparse(lp.target), ast.unparse(lp.iter)])
+    crop_tests(f, 'dwtinv1', 'x0', 'x1', [-1])
+    f = method(t2d, 'SWTForward', 'forward')
+    c = the_call(f, 'lowlevel.afb2d_atrous')
+    strs('swt_call_args', [ast.unparse(a) for a in c.args[:3]])
+    lp = the_loop(f)
+    strs('swt_loop', [ast.unparse(lp.target), ast.unparse(lp.iter)])
+    dil = c.args[3]
+    if not (isinstance(dil, ast.BinOp) and isinstance(dil.op, ast.Pow) and isinstance(dil.left, ast.Constant) and isinstance(dil.right, ast.Name) and dil.right.id == ast.unparse(lp.target)):
+        raise TranslateError('SWTForward: dilation %s' % ast.unparse(dil))
+    d('swt_dilation_base', [], SizeTranslator(f, {}).expr(dil.left))
+    filts = [n for n in ast.walk(f) if isinstance(n, ast.Assign) and ast.unparse(n.targets[0]) == 'filts']
+    if len(filts) != 1 or not isinstance(filts[0].value, ast.Tuple):
+        raise TranslateError('SWTForward: filts')
+    strs('swt_filts', [ast.unparse(e) for e in filts[0].value.elts])
+    # the 2-D preparation helpers: both axis pairs go through the 1-D helper (so inherit its mirroring), columns onto axis 2, rows onto axis 3
+    for nm, one in (('prep_filt_afb2d', 'prep_filt_afb1d'), ('prep_filt_sfb2d', 'prep_filt_sfb1d')):
+        fn = _find_fn(low, nm)
+        params = [a.arg for a in fn.args.args[:4]]
+        calls = [c for c in ast.walk(fn) if isinstance(c, ast.Call) and getattr(c.func, 'id', None) == one]
+        strs(nm + '_1d_calls', sorted(', '.join(ast.unparse(a) for a in c.args[:2]) for c in calls))
+        for prm in params:
+            rs = [n for n in ast.walk(fn) if isinstance(n, ast.Assign) and ast.unparse(n.targets[0]) == prm and isinstance(n.value, ast.Call)
+                  and isinstance(n.value.func, ast.Attribute) and n.value.func.attr == 'reshape' and ast.unparse(n.value.func.value) == prm]
+            if len(rs) != 1:
+                raise TranslateError('%s: reshape of %s' % (nm, prm))
+            shp = ast.literal_eval(rs[0].value.args[0])
+            if sorted(shp) != [-1, 1, 1, 1]:
+                raise TranslateError('%s: reshape of %s to %r' % (nm, prm, shp))
+            d('%s_axis_%s' % (nm, prm), [], '(%d : Int)' % list(shp).index(-1))
+        dflt = [n for n in ast.walk(fn) if isinstance(n, ast.If) and isinstance(n.test, ast.Compare) and isinstance(n.test.ops[0], ast.Is) and ast.unparse(n.test.left) == params[2]]
+        if len(dflt) != 1 or len(dflt[0].body) != 1:
+            raise TranslateError('%s: default of the row filters' % nm)
+        strs(nm + '_row_default', [ast.unparse(dflt[0].body[0])])
     out.append('\nend WV.Gen.Sizes\n')
     return _write(os.path.join(GEN, 'Sizes.lean'), '\n'.join(out))
 
 
-SIZE_PROPS = {'C01', 'C10', 'C08', 'C03', 'C19', 'C13', 'C04', 'C11'}     # the properties whose theorem lists include the size-arithmetic tie (C01Z)
+SIZE_PROPS = {'C01', 'C10', 'C08', 'C03', 'C19', 'C13', 'C04', 'C11', 'C14'}     # the properties whose theorem lists include the size-arithmetic tie (C01Z)
 
 PAD_PROPS = {'C01', 'C03', 'C04', 'C11'}      # the properties whose theorem lists include the padding-helper tie (C03T)
 
